@@ -471,6 +471,14 @@ def cross_package_generations(ctx, traces):
           '<xs:complexType name="Container"><xs:sequence><xs:element name="remote" type="o:Item"/><xs:element name="local" type="t:Item"/></xs:sequence></xs:complexType>'
           '<xs:element name="container" type="t:Container"/></xs:schema>')
     same = {"alpha.xsd": a2, "beta.xsd": b2}
+    # ... and an imported ENUMERATION that needs an alias, used with a default value (the default names the alias too)
+    a3 = ('<xs:schema xmlns:xs="http://www.w3.org/2001/XMLSchema" targetNamespace="urn:alpha" xmlns:t="urn:alpha" elementFormDefault="qualified">'
+          '<xs:simpleType name="Color"><xs:restriction base="xs:string"><xs:enumeration value="red"/><xs:enumeration value="dark blue"/></xs:restriction></xs:simpleType></xs:schema>')
+    b3 = ('<xs:schema xmlns:xs="http://www.w3.org/2001/XMLSchema" targetNamespace="urn:beta" xmlns:t="urn:beta" xmlns:o="urn:alpha" elementFormDefault="qualified">'
+          '<xs:import namespace="urn:alpha" schemaLocation="alpha.xsd"/>'
+          '<xs:element name="Color"><xs:complexType><xs:sequence><xs:element name="shade" type="o:Color" default="red"/><xs:element name="tone" type="o:Color" minOccurs="0"/></xs:sequence>'
+          '<xs:attribute name="hue" type="o:Color" default="dark blue"/></xs:complexType></xs:element></xs:schema>')
+    enum_alias = {"alpha.xsd": a3, "beta.xsd": b3}
     k = 0
     for style in (StructureStyle.FILENAMES, StructureStyle.NAMESPACES, StructureStyle.CLUSTERS):
         for rel in (True, False):
@@ -479,6 +487,8 @@ def cross_package_generations(ctx, traces):
                             {"structure_style": style, "relative_imports": rel}, None, traces, f"cross-{k}", must_generate=True)
             generation_case(ctx, "xsd-same-name-import", same, ["beta.xsd"], f"{style.value}-{'relative' if rel else 'absolute'}",
                             {"structure_style": style, "relative_imports": rel}, None, traces, f"same-{k}", must_generate=True)
+            generation_case(ctx, "xsd-enum-alias-default", enum_alias, ["beta.xsd"], f"{style.value}-{'relative' if rel else 'absolute'}",
+                            {"structure_style": style, "relative_imports": rel}, None, traces, f"enum-alias-{k}", must_generate=True)
 
 
 def graph_generations(ctx, traces):
